@@ -362,6 +362,16 @@ def parentRead (cfg : Cfg) (p : Parent) (pipe : Str) : ReadRes :=
     else if t = '6' then .cont p rest
     else .fatal
 
+/-- events the encoding carries faithfully: the hypothesis of the process theorems on what the workers send -/
+def Ev.good (cfg : Cfg) : Ev → Bool
+  | .err m => m.transportable && decide ((serialize m).length < two32) && decide (m.sanitize cfg.simp = m)
+  | .suppr inl s =>
+    decide ((supprEncode s).length < two32) &&
+      (match supprDecode cfg.simp inl (supprEncode s) with
+       | .ok _ => true
+       | .error _ => false)
+  | .done n => decide (n ≤ 1)
+
 structure Child where
   /-- events the worker has not written yet -/
   todo : List Ev
